@@ -369,6 +369,12 @@ class DirectoryRecord:
                                           rr_relocated, rr_relocated_parent,
                                           bytes_to_skip, self.dr_len, {}, date_seconds)
 
+        ce_record = self.rock_ridge.dr_entries.ce_record
+        if ce_record is not None and ce_record.len_cont_area > self.vd.logical_block_size():
+            # A continuation area is a single logical block; entries that need
+            # more than that cannot be recorded.
+            raise pycdlibexception.PyCdlibInvalidInput('Rock Ridge entries are too long to fit into a continuation block')
+
         # For files, we are done
         if not self.isdir:
             return
